@@ -940,6 +940,8 @@ func (vc *VC) addrOf(st *State, v ssa.Value) *Addr {
 
 func (vc *VC) panicOb(st *State, kind, anchor, goal string) {
 	if vc.spec != nil && !vc.spec.NoPanic {
+		// partial correctness: execution only continues past this point if it did not panic here
+		vc.assume(st, goal)
 		return
 	}
 	k := kind + "@" + anchor
